@@ -27,6 +27,8 @@ type C05Case struct {
 	// FullVerify: also call Verify(remember=true) on the full map forest before Modify
 	FullVerify bool   `json:"fullverify,omitempty"`
 	Next       *Block `json:"next,omitempty"` // an honest follow-up block
+	// Share: 0 = every call gets fresh copies; k>0 = the same slices go to every implementation, applied in order permutation k-1
+	Share int `json:"share,omitempty"`
 }
 
 func genC05(t *rapid.T) C05Case {
@@ -95,6 +97,9 @@ func genC05(t *rapid.T) C05Case {
 		}
 	}
 	c.FullVerify = rapid.Bool().Draw(t, "fullverify")
+	if rapid.Bool().Draw(t, "share") {
+		c.Share = rapid.IntRange(1, 24).Draw(t, "order")
+	}
 	g := f.Clone()
 	applyToModel(g, Block{Del: c.Del, Add: c.Add})
 	if rapid.Bool().Draw(t, "next") {
@@ -245,27 +250,88 @@ func runC05(c C05Case) *Result {
 	for i, a := range adds {
 		addH[i] = a.Hash
 	}
-	if _, err := stump.Update(cloneHashes(encH), addH, cloneProof(enc)); err != nil {
-		return res.failf("Stump.Update rejects a block that Verify accepts (%s encoding, targets %v): %v", c.Enc, enc.Targets, err)
+	// Share > 0: the very same slices (no defensive copies) are handed to every implementation,
+	// in the order given by permutation number Share-1 of [stump, pollard, full map, partial map]:
+	// the property says the block "can be applied to several instances" as it is.
+	cpH := func(h []Hash) []Hash {
+		if c.Share > 0 {
+			return h
+		}
+		return cloneHashes(h)
 	}
-	if err := pol.P.Modify(append([]u.Leaf(nil), adds...), cloneHashes(encH), cloneProof(enc)); err != nil {
-		return res.failf("Pollard.Modify fails on an accepted block (%s encoding, targets %v): %v", c.Enc, enc.Targets, err)
+	cpP := func(p u.Proof) u.Proof {
+		if c.Share > 0 {
+			return p
+		}
+		return cloneProof(p)
 	}
-	if c.FullVerify && len(encH) > 0 {
-		if err := mfull.M.Verify(cloneHashes(encH), cloneProof(enc), true); err != nil {
-			return res.failf("full %s Verify(remember) rejects a block that Verify accepts (%s encoding): %v", mfull.Cfg, c.Enc, err)
+	cpL := func(l []u.Leaf) []u.Leaf {
+		if c.Share > 0 {
+			return l
+		}
+		return append([]u.Leaf(nil), l...)
+	}
+	shared := ""
+	if c.Share > 0 {
+		shared = " [same slices handed to every implementation]"
+		res.class("shared-slices")
+	}
+	steps := []func() error{
+		func() error {
+			if _, err := stump.Update(cpH(encH), cpH(addH), cpP(enc)); err != nil {
+				return fmt.Errorf("Stump.Update rejects a block that Verify accepts (%s encoding, targets %v)%s: %v", c.Enc, enc.Targets, shared, err)
+			}
+			return nil
+		},
+		func() error {
+			if err := pol.P.Modify(cpL(adds), cpH(encH), cpP(enc)); err != nil {
+				return fmt.Errorf("Pollard.Modify fails on an accepted block (%s encoding, targets %v)%s: %v", c.Enc, enc.Targets, shared, err)
+			}
+			return nil
+		},
+		func() error {
+			if c.FullVerify && len(encH) > 0 {
+				if err := mfull.M.Verify(cpH(encH), cpP(enc), true); err != nil {
+					return fmt.Errorf("full %s Verify(remember) rejects a block that Verify accepts (%s encoding)%s: %v", mfull.Cfg, c.Enc, shared, err)
+				}
+			}
+			if err := mfull.M.Modify(cpL(adds), cpH(encH), cpP(enc)); err != nil {
+				return fmt.Errorf("full %s Modify fails on an accepted block (%s encoding, targets %v)%s: %v", mfull.Cfg, c.Enc, enc.Targets, shared, err)
+			}
+			return nil
+		},
+		func() error {
+			if len(encH) > 0 {
+				if err := mpart.M.Verify(cpH(encH), cpP(enc), true); err != nil {
+					return fmt.Errorf("partial %s Verify(remember) rejects a block that Verify accepts (%s encoding)%s: %v", mpart.Cfg, c.Enc, shared, err)
+				}
+			}
+			if err := mpart.M.Modify(cpL(adds), cpH(encH), cpP(enc)); err != nil {
+				return fmt.Errorf("partial %s Modify fails on an accepted block (%s encoding, targets %v)%s: %v", mpart.Cfg, c.Enc, enc.Targets, shared, err)
+			}
+			return nil
+		},
+	}
+	order := []int{0, 1, 2, 3}
+	if c.Share > 1 {
+		k := (c.Share - 1) % 24
+		pool := []int{0, 1, 2, 3}
+		order = order[:0]
+		for n := 4; n >= 1; n-- {
+			f := 1
+			for i := 2; i < n; i++ {
+				f *= i
+			}
+			idx := k / f
+			k %= f
+			order = append(order, pool[idx])
+			pool = append(pool[:idx:idx], pool[idx+1:]...)
 		}
 	}
-	if err := mfull.M.Modify(append([]u.Leaf(nil), adds...), cloneHashes(encH), cloneProof(enc)); err != nil {
-		return res.failf("full %s Modify fails on an accepted block (%s encoding, targets %v): %v", mfull.Cfg, c.Enc, enc.Targets, err)
-	}
-	if len(encH) > 0 {
-		if err := mpart.M.Verify(cloneHashes(encH), cloneProof(enc), true); err != nil {
-			return res.failf("partial %s Verify(remember) rejects a block that Verify accepts (%s encoding): %v", mpart.Cfg, c.Enc, err)
+	for _, i := range order {
+		if err := steps[i](); err != nil {
+			return res.failf("%v", err)
 		}
-	}
-	if err := mpart.M.Modify(append([]u.Leaf(nil), adds...), cloneHashes(encH), cloneProof(enc)); err != nil {
-		return res.failf("partial %s Modify fails on an accepted block (%s encoding, targets %v): %v", mpart.Cfg, c.Enc, enc.Targets, err)
 	}
 	applyToModel(f, Block{Del: slots, Add: c.Add})
 	v2 := f.View()
